@@ -68,6 +68,8 @@ def wfOps (c : Case) (nF : Nat) (copyOk : Bool) : Nat â†’ List Nat â†’ List Op â
   | n, hashed, .pickle i :: rest => i < n && copyOk && wfOps c nF copyOk (n + 1) hashed rest
   | n, hashed, .evolve i ch :: rest =>
     i < n && ch.all (fun fv => fv.1 < nF && fv.2 < c.eqc.length) && wfOps c nF copyOk (n + 1) hashed rest
+  | n, hashed, .assoc i ch :: rest =>
+    i < n && copyOk && ch.all (fun fv => fv.1 < nF && fv.2 < c.eqc.length) && wfOps c nF copyOk (n + 1) hashed rest
   | n, hashed, .set i f v :: rest =>
     i < n && f < nF && v < c.eqc.length && !hashed.contains i && wfOps c nF copyOk n hashed rest
 
